@@ -1,12 +1,15 @@
 """Sidecar contracts (DESIGN.md Appendix A). One module per repository module."""
 def install_all(reg):
-    from pyvc import sdmodel, pnmodel
+    from pyvc import sdmodel, pnmodel, strmodel
+    strmodel.install(reg)
     sdmodel.install(reg)
     pnmodel.install(reg)
     from . import space_utils, deps, succession_diagram
     space_utils.install(reg)
     deps.install(reg)
     succession_diagram.install(reg)
-    from . import algorithms, petri_net
+    from . import algorithms, petri_net, trappist
+    trappist.install(reg)
+    trappist.install_models(reg)
     algorithms.install(reg)
     petri_net.install(reg)
